@@ -11,6 +11,7 @@ CONSTANTS
   MaxItems = 0
   Addrs = {"4096"}
   Grows = {}
+  Lates = FALSE
   NopKinds = {}
   VariantSet = "none"
   Rotate = 0
